@@ -325,6 +325,39 @@ theorem file_set_only (m : P → Path → Bool) (c : Config P Path B E) (apply' 
 example : processFile (fun (p : Nat) (q : Nat) => p == q) (tagConfig [1, 2] [3] [([], [])]) 2 [] =
     processFile (fun (p : Nat) (q : Nat) => p == q) (tagConfig [2, 1, 2] [3, 3] [([], [])]) 2 [] := by decide
 
+/-! ### rules run in configuration order, each at most once -/
+
+theorem appliedFrom_sorted (m : P → Path → Bool) (rules : List (Rule P Path B E)) (path : Path) :
+    ∀ start, (appliedFrom m start rules path).Pairwise (· < ·) ∧
+      ∀ j ∈ appliedFrom m start rules path, start ≤ j := by
+  induction rules with
+  | nil => intro start; simp [appliedFrom]
+  | cons r rs ih =>
+    intro start
+    obtain ⟨hp, hge⟩ := ih (start + 1)
+    unfold appliedFrom
+    split
+    · refine ⟨List.pairwise_cons.mpr ⟨fun j hj => ?_, hp⟩, fun j hj => ?_⟩
+      · have := hge j hj; omega
+      · rcases List.mem_cons.mp hj with h | h
+        · omega
+        · have := hge j h; omega
+    · exact ⟨hp, fun j hj => by have := hge j hj; omega⟩
+
+/-- **Order**: the rules that run on a file are a strictly increasing list of pipeline positions —
+configuration order, no rule twice, whatever the filters are. -/
+theorem applied_sorted (m : P → Path → Bool) (rules : List (Rule P Path B E)) (path : Path) :
+    (applied m rules path).Pairwise (· < ·) :=
+  (appliedFrom_sorted m rules path 0).1
+
+/-- no rule runs twice on a file -/
+theorem applied_nodup (m : P → Path → Bool) (rules : List (Rule P Path B E)) (path : Path) :
+    (applied m rules path).Nodup :=
+  (applied_sorted m rules path).imp (fun h => Nat.ne_of_lt h)
+
+example : applied (fun (p : Nat) (q : Nat) => p == q)
+    [tagRule 0 [] [], tagRule 1 [9] [], tagRule 2 [] [], tagRule 3 [5] []] 5 = [0, 2, 3] := by decide
+
 /-! ### the reference matcher means what the documentation says (sanity examples) -/
 
 example : Spec.glob "src/**".toList "src/a/b.lua".toList = some true := by decide
